@@ -8,7 +8,8 @@ the repository's own `wellFormedEscapeGraph`, status ≥ intrinsic, status close
 `lessEqual`, `matchesG`, `merge`, `addEdge`, `mergeNodeStatus` are the executable definitions the
 oracle runs against the real `LessEqual`, `Matches`, `Merge`, `AddEdge`, `MergeNodeStatus`.
 -/
-import Argot.Proofs.EGraphOrder
+import Argot.Proofs.EGraphLattice
+import Argot.Proofs.Fixpoint
 
 namespace Argot.EGraph
 namespace EGraph
@@ -39,5 +40,138 @@ theorem matchesG_trans {g h k : EGraph} (hg : Rep g) (hh : Rep h) (hk : Rep k)
     (e1 : matchesG g h = true) (e2 : matchesG h k = true) : matchesG g k = true :=
   (matchesG_iff hg hk).2 (((matchesG_iff hg hh).1 e1).trans ((matchesG_iff hh hk).1 e2))
 
+/-! ### well-formedness is preserved by every operation -/
+
+variable {I : Node → Nat}
+
+theorem addNode_preserves_wf (hI : ∀ n, I n ≤ 2) {g : EGraph} (hg : WF I g) (n : Node) :
+    WF I (addNode I g n) := addNode_wf hI hg n
+
+theorem addEdge_preserves_wf (hI : ∀ n, I n ≤ 2) {g : EGraph} (hg : WF I g) (a b : Node) (f : Flags) :
+    WF I (addEdge I g a b f) := addEdge_wf hI hg a b f
+
+/-- `MergeNodeStatus` on a node of the graph (the analysis always calls `AddNode` first, or applies
+it to pointees; on an absent node the code leaves a status without an edge row, which the
+repository's own `wellFormedEscapeGraph` rejects) -/
+theorem mergeNodeStatus_preserves_wf {g : EGraph} (hg : WF I g) {n : Node} (hn : n ∈ g.dom) {s : Nat}
+    (hs : s ≤ 2) : WF I (mergeNodeStatus g n s) := (mns_spec hg hn hs).wf
+
+theorem merge_preserves_wf (hI : ∀ n, I n ≤ 2) {g h : EGraph} (hg : WF I g) (hh : WF I h) :
+    WF I (merge I g h) := (merge_spec hI hg hh).wf
+
+/-! ### `Merge` is the join -/
+
+/-- **merge_status_eq_closure**: nodes = union, flags = union, and the status computed by the
+worklist propagation is the declarative closure `n ↦ sup { max (st_g m) (st_h m) | m ⟶* n }` over
+the union of the edges — whatever the order in which Go iterates over its maps. -/
+theorem merge_status_eq_closure (hI : ∀ n, I n ≤ 2) {g h : EGraph} (hg : WF I g) (hh : WF I h) :
+    (∀ x, x ∈ (merge I g h).dom ↔ x ∈ g.dom ∨ x ∈ h.dom) ∧
+    (∀ a b, (merge I g h).fl a b = (g.fl a b).or (h.fl a b)) ∧
+    (∀ n, (merge I g h).st n = cl (orFl g h) (fun x => max (g.st x) (h.st x)) n) := by
+  have sp := merge_spec hI hg hh
+  refine ⟨sp.dom, sp.fl, fun n => ?_⟩
+  exact sp.least.unique (isLeast_cl _ _ (fun x => Nat.max_le.2 ⟨hg.le2 x, hh.le2 x⟩)) n
+
+theorem merge_idem (hI : ∀ n, I n ≤ 2) {g : EGraph} (hg : WF I g) : matchesG (merge I g g) g = true :=
+  (matchesG_iff (merge_spec hI hg hg).wf.toRep hg.toRep).2 (merge_idem_equiv hI hg)
+
+theorem merge_comm (hI : ∀ n, I n ≤ 2) {g h : EGraph} (hg : WF I g) (hh : WF I h) :
+    matchesG (merge I g h) (merge I h g) = true :=
+  (matchesG_iff (merge_spec hI hg hh).wf.toRep (merge_spec hI hh hg).wf.toRep).2 (merge_comm_equiv hI hg hh)
+
+theorem merge_assoc (hI : ∀ n, I n ≤ 2) {g h k : EGraph} (hg : WF I g) (hh : WF I h) (hk : WF I k) :
+    matchesG (merge I (merge I g h) k) (merge I g (merge I h k)) = true :=
+  (matchesG_iff (merge_spec hI (merge_spec hI hg hh).wf hk).wf.toRep
+    (merge_spec hI hg (merge_spec hI hh hk).wf).wf.toRep).2 (merge_assoc_equiv hI hg hh hk)
+
+theorem le_merge_left' (hI : ∀ n, I n ≤ 2) {g h : EGraph} (hg : WF I g) (hh : WF I h) :
+    lessEqual g (merge I g h) = true := (lessEqual_iff hg.toRep).2 (le_merge_left hI hg hh)
+
+theorem le_merge_right' (hI : ∀ n, I n ≤ 2) {g h : EGraph} (hg : WF I g) (hh : WF I h) :
+    lessEqual h (merge I g h) = true := (lessEqual_iff hh.toRep).2 (le_merge_right hI hg hh)
+
+/-- **merge_least**: `Merge` is the least upper bound -/
+theorem merge_least (hI : ∀ n, I n ≤ 2) {g h k : EGraph} (hg : WF I g) (hh : WF I h) (hk : WF I k)
+    (h1 : lessEqual g k = true) (h2 : lessEqual h k = true) : lessEqual (merge I g h) k = true :=
+  (lessEqual_iff (merge_spec hI hg hh).wf.toRep).2
+    (merge_least_le hI hg hh hk ((lessEqual_iff hg.toRep).1 h1) ((lessEqual_iff hh.toRep).1 h2))
+
+/-! ### monotonicity of the primitives (fixed node universe, same arguments) -/
+
+theorem addNode_mono (hI : ∀ n, I n ≤ 2) {g h : EGraph} (hg : WF I g) (hh : WF I h)
+    (hle : lessEqual g h = true) (n : Node) : lessEqual (addNode I g n) (addNode I h n) = true :=
+  (lessEqual_iff (addNode_wf hI hg n).toRep).2 (addNode_mono_le hI hg hh ((lessEqual_iff hg.toRep).1 hle) n)
+
+theorem addEdge_mono (hI : ∀ n, I n ≤ 2) {g h : EGraph} (hg : WF I g) (hh : WF I h)
+    (hle : lessEqual g h = true) (a b : Node) (f : Flags) (hf : f.any = true) :
+    lessEqual (addEdge I g a b f) (addEdge I h a b f) = true :=
+  (lessEqual_iff (addEdge_wf hI hg a b f).toRep).2
+    (addEdge_mono_le hI hg hh ((lessEqual_iff hg.toRep).1 hle) a b f hf)
+
+theorem mergeNodeStatus_mono {g h : EGraph} (hg : WF I g) (hh : WF I h) (hle : lessEqual g h = true)
+    {n : Node} (hn : n ∈ g.dom) {s : Nat} (hs : s ≤ 2) :
+    lessEqual (mergeNodeStatus g n s) (mergeNodeStatus h n s) = true :=
+  (lessEqual_iff (mns_spec hg hn hs).wf.toRep).2 (mns_mono_le hg hh ((lessEqual_iff hg.toRep).1 hle) hn hs)
+
+theorem merge_mono (hI : ∀ n, I n ≤ 2) {g g' h h' : EGraph} (hg : WF I g) (hg' : WF I g') (hh : WF I h)
+    (hh' : WF I h') (h1 : lessEqual g g' = true) (h2 : lessEqual h h' = true) :
+    lessEqual (merge I g h) (merge I g' h') = true :=
+  (lessEqual_iff (merge_spec hI hg hh).wf.toRep).2
+    (merge_mono_le hI hg hg' hh hh' ((lessEqual_iff hg.toRep).1 h1) ((lessEqual_iff hh.toRep).1 h2))
+
+/-- extensive: the primitives only add information -/
+theorem addEdge_extensive (hI : ∀ n, I n ≤ 2) {g : EGraph} (hg : WF I g) (a b : Node) (f : Flags) :
+    lessEqual g (addEdge I g a b f) = true := (lessEqual_iff hg.toRep).2 (addEdge_le hI hg.toRep a b f)
+
+/-! ### non-vacuity and the role of the hypothesis -/
+
+/-- kinds: node 0 a variable, node 1 an allocation, node 2 a global (intrinsically leaked) -/
+def exI : Node → Nat := fun n => if n = 2 then 2 else 0
+
+def exG : EGraph :=
+  { dom := [0, 1], st := fun _ => 0, out := fun n => n = 0 || n = 1,
+    fl := fun a b => if a = 0 ∧ b = 1 then Flags.internal else Flags.none }
+
+def exH : EGraph :=
+  { dom := [1, 2], st := fun n => if n = 2 then 2 else 0, out := fun n => n = 1 || n = 2,
+    fl := fun a b => if a = 2 ∧ b = 0 then Flags.none else Flags.none }
+
+/-- `exK`: the global points to the allocation; status closed -/
+def exK : EGraph :=
+  { dom := [1, 2], st := fun n => if n = 1 ∨ n = 2 then 2 else 0, out := fun n => n = 1 || n = 2,
+    fl := fun a b => if a = 2 ∧ b = 1 then Flags.internal else Flags.none }
+
+example : wfB exI exG 3 = true ∧ wfB exI exK 3 = true := by decide
+example : matchesG (merge exI exG exK) (merge exI exK exG) = true := by decide
+example : (merge exI exG exK).st 1 = 2 ∧ (merge exI exG exK).st 0 = 0 := by decide
+example : lessEqual exG (merge exI exG exK) = true ∧ lessEqual (merge exI exG exK) exG = false := by decide
+
+/-- a graph whose status is not closed (the global is leaked, its pointee is not) -/
+def exBad : EGraph :=
+  { dom := [1, 2], st := fun n => if n = 2 then 2 else 0, out := fun n => n = 1 || n = 2,
+    fl := fun a b => if a = 2 ∧ b = 1 then Flags.internal else Flags.none }
+
+/-- without closedness `Merge` is not commutative: the hypothesis `WF` is needed -/
+example : matchesG (merge exI exG exBad) (merge exI exBad exG) = false := by decide
+
 end EGraph
+
+/-! ### chaotic iteration -/
+
+open Fixpoint in
+/-- **Chaotic iteration**: over a finite-height preorder with monotone transfer functions, every
+fair order of re-analysis reaches a post-fixpoint that lies below every post-fixpoint. -/
+theorem chaotic_iteration_reaches_lfp {L : Type} {n : Nat} (fw : Framework L n) (σ : Nat → Fin n)
+    (hfair : Fair σ) :
+    ∃ T, fw.PostFix (fw.run σ T) ∧ ∀ y, fw.PostFix y → ∀ i, fw.le (fw.run σ T i) (y i) :=
+  fw.reaches_least_fixpoint σ hfair
+
+open Fixpoint in
+/-- **Order independence**: two fair worklist orders end in equivalent fixpoints. -/
+theorem chaotic_iteration_order_independent {L : Type} {n : Nat} (fw : Framework L n)
+    (σ τ : Nat → Fin n) (hσ : Fair σ) (hτ : Fair τ) :
+    ∃ T T', fw.PostFix (fw.run σ T) ∧ fw.PostFix (fw.run τ T') ∧
+      (∀ i, fw.le (fw.run σ T i) (fw.run τ T' i)) ∧ (∀ i, fw.le (fw.run τ T' i) (fw.run σ T i)) :=
+  fw.order_independent σ τ hσ hτ
+
 end Argot.EGraph
